@@ -120,3 +120,11 @@ Theorem C15_outside_quantifier_retry_not_counted :
   acked (ex_retry retry_ok) = [1%N] /\ reading (files (ex_retry retry_ok)) = [1%N] /\
   bw (ex_retry retry_ok) = 0 /\ since_open (ex_retry retry_ok) = 5.
 Proof. exact retry_not_counted. Qed.
+
+(* the special paths bypass everything: no file, no descriptor, no directory, no rotation; every call succeeds *)
+Theorem C15_special_paths_bypass : forall c w o, special c = true -> fopen w = None ->
+  files (step c w o) = files w /\ fopen (step c w o) = None /\ dirmode (step c w o) = dirmode w /\
+  step_ok c w o = true /\ step_rot c w o = false /\
+  acked (step c w o) = acked w ++ match o with Write id _ _ _ _ _ _ _ => [id] | _ => [] end.
+Proof. exact special_paths_bypass. Qed.
+Print Assumptions C15_special_paths_bypass.
